@@ -114,12 +114,11 @@ Fixpoint mem (x : string) (l : list string) : bool :=
 Definition init_table_ok (exempt : list string) (funcs : list fn) (entries : list entry) (fuel : nat) : bool :=
   forallb (fun e => negb (e_first e) || mem (e_name e) exempt || is_safe (classify funcs fuel (e_name e))) entries.
 
-(** Entry points that, on the pinned tree, touch worker state without initialising the library and can
-    be a process's first call (confirmed by first-use runs: assertion failure in myth_get_current_env /
-    NULL g_envs).  Candidate defects, see notes/C15.md; the table check is stated modulo this list, and
-    [exempt_all_unsafe] shows that every name on it is really classified [Uses]. *)
-Definition known_unprotected : list string :=
-  ["myth_exit"; "myth_wsapi_runqueue_pop"; "myth_wsapi_runqueue_peek"; "myth_wsapi_runqueue_take"].
+(** Entry points known to touch worker state without initialising the library although they can be a
+    process's first call.  Empty since commit 34be022 (myth_exit and the myth_wsapi_runqueue_* functions
+    were the members; see notes/C15.md).  The table check is stated modulo this list; [exempt_all_unsafe]
+    would show that a non-empty list is not stale. *)
+Definition known_unprotected : list string := [].
 
 (** the exemptions are not stale: each exempt name is an entry that is really classified [Uses] *)
 Definition exempt_all_unsafe (exempt : list string) (funcs : list fn) (entries : list entry) (fuel : nat) : bool :=
